@@ -109,13 +109,14 @@ def main():
                                  'macro_accepts': not rejected, 'run_time_grammar_accepts': acc}, no_input=False)
         # crate B: accepted literals; the value must be indistinguishable from the run-time parse
         okl = [(i, x) for i, x in enumerate(lits) if x[4] and i not in failing]
-        body = ['fn main() {', '    let mut bad = 0;']
+        # one small function per literal (a single huge `main` makes rustc's borrow checker and LLVM take tens of minutes)
+        body = ['#![allow(non_snake_case)]']
         for i, (mac, ty, t, s, acc) in okl:
             lit = rust_lit(s, i % 7 == 3)
-            body.append('    { const M: &%s = iref::%s!(%s); let r = <%s>::new(%s).unwrap(); if !(M.as_str() == %s && M == r && M.as_bytes() == r.as_bytes() && format!("{:?}", M.path()) == format!("{:?}", r.path()) && M.authority().map(|a| a.as_bytes()) == r.authority().map(|a| a.as_bytes()) && M.query().map(|a| a.as_bytes()) == r.query().map(|a| a.as_bytes()) && M.fragment().map(|a| a.as_bytes()) == r.fragment().map(|a| a.as_bytes())) { println!("BAD %d {:?}", M.as_str()); bad += 1; } }' % (ty, mac, lit, ty, lit, lit, i))
-        body += ['    println!("DONE {}", bad);', '}']
+            body.append('fn t%d() -> u32 { const M: &%s = iref::%s!(%s); let r = <%s>::new(%s).unwrap(); if !(M.as_str() == %s && M == r && M.as_bytes() == r.as_bytes() && format!("{:?}", M.path()) == format!("{:?}", r.path()) && M.authority().map(|a| a.as_bytes()) == r.authority().map(|a| a.as_bytes()) && M.query().map(|a| a.as_bytes()) == r.query().map(|a| a.as_bytes()) && M.fragment().map(|a| a.as_bytes()) == r.fragment().map(|a| a.as_bytes())) { println!("BAD %d {:?}", M.as_str()); 1 } else { 0 } }' % (i, ty, mac, lit, ty, lit, lit, i))
+        body += ['fn main() {', '    let fs: &[fn() -> u32] = &[' + ', '.join('t%d' % i for i, _ in okl) + '];', '    let mut bad = 0;', '    for f in fs { bad += f(); }', '    println!("DONE {}", bad);', '}']
         bdir = crate('valcheck', '\n'.join(body) + '\n', 'bin')
-        rc, out, err = sh(['cargo', 'run', '--offline', '-q', '-j', '16'], cwd=bdir, env=env, timeout=1500, check=False)
+        rc, out, err = sh(['cargo', 'run', '--offline', '-q', '-j', '16'], cwd=bdir, env=env, timeout=3000, check=False)
         if 'DONE' not in out:
             R.violation({'kind': 'the crate using the accepted literals does not build or run', 'stderr': err[-2000:]}, no_input=True)
         for l in out.split('\n'):
